@@ -6,6 +6,7 @@ package main
 // version at that program point) or @old{name} (version at function entry).
 
 import (
+	"go/token"
 	"fmt"
 	"sync"
 	"regexp"
@@ -109,6 +110,7 @@ type ILLoop struct {
 	Body     map[*ILBlock]bool
 	Back     []*ILBlock
 	Key      string
+	Pos      token.Pos // source position of the loop statement
 	Spec     *LoopSpec
 	Inv      []InvClause // elaborated invariants (text with @{} tokens)
 	Modified []*MVar
@@ -663,7 +665,10 @@ func (vs *VCSet) queryText(obs []*Obligation) string {
 			}
 		}
 	}
-	if vs.DomUnits {
+	// for an obligation with a restricted hypothesis set the dominating blocks are asserted outright: its proof
+	// is meant to use the facts of a dominating loop head, and finding out propositionally that every path runs
+	// through that head is what the solvers fail at on large functions
+	if vs.DomUnits || (len(obs) == 1 && obs[0].Restrict) {
 		for _, b := range vs.Blocks {
 			if common[b.ID] == len(obs) {
 				sb.WriteString(fmt.Sprintf("(assert X$%d)\n", b.ID))
